@@ -52,11 +52,11 @@ theorem gme_enc1_id (v : LVal) (n : Nat) (h : gme_Id v n) (ltype : Name) (ty : N
     · obtain ⟨a, b, c, d, rfl⟩ : ∃ a b c d, bs = [a, b, c, d] := by
         match bs, hl with
         | [a, b, c, d], _ => exact ⟨a, b, c, d, rfl⟩
-      refine ⟨[UInt8.ofNat (32 ||| ty ||| 3), 0, a, b, c, d], ?_, by simp, by simp, by simp, ?_⟩
+      refine ⟨[UInt8.ofNat (32 ||| ty ||| 2), 0, a, b, c, d], ?_, by simp, by simp, by simp, ?_⟩
       · simp [encSeg, encLogical, hty, hf4, hL]
       · intro rest fuel hf
         obtain ⟨k, rfl⟩ : ∃ k, fuel = k + 1 := ⟨fuel - 1, by simp at hf; omega⟩
-        obtain ⟨h1, h2, h3⟩ := head_byte ty 3 h4 h32 (by omega)
+        obtain ⟨h1, h2, h3⟩ := head_byte ty 2 h4 h32 (by omega)
         exact step_logical32 _ _ _ _ _ _ _ h1 h2 h3 (by simp [leVal]; omega) _ _
 
 /-- the length-prefixed request path of an encodable segment list: bounded length, parses back exactly -/
